@@ -2329,9 +2329,11 @@ package connect
 // ---------------------------------------------------------------------------
 
 //@ func (*connectUnaryClientConn).Send(cc, msg) err
-//@   tags C01, C02
-//@   requires cc != nil && cc.marshaler.writer != nil && !pooled(cc.marshaler.writer) && cc.marshaler.codec != nil && cc.marshaler.bufferPool != nil && cc.marshaler.header != nil
-//@   assigns out(cc.marshaler.writer), mapof(cc.marshaler.header), mapvals(cc.marshaler.header)
+//@   tags C01, C02, C05, C07
+//@   requires cc != nil && cc.duplexCall != nil && cc.duplexCall.requestBodyReader != nil && cc.marshaler.writer != nil && !pooled(cc.marshaler.writer) && cc.marshaler.codec != nil && cc.marshaler.bufferPool != nil && cc.marshaler.header != nil
+//@   assigns out(cc.marshaler.writer), mapof(cc.marshaler.header), mapvals(cc.marshaler.header), cc.duplexCall.err, pclosed(cc.duplexCall.requestBodyReader)
+//@   ensures err != nil && !Is(err, io.EOF) ==> called("(*duplexHTTPCall).SetError", 1)   // label: a-message-that-did-not-go-out-marks-the-call-failed-so-that-closing-the-request-cannot-deliver-an-empty-one   // tags: C05, C01, C07
+//@   assert@call((*duplexHTTPCall).SetError#1): arg0 == cc.duplexCall && arg1 == callres("(*connectUnaryMarshaler).Marshal", 1)   // label: with-the-marshaler's-error
 //@   ensures (err == nil) == (callres("(*connectUnaryMarshaler).Marshal", 1) == nil) && (err != nil ==> err == callres("(*connectUnaryMarshaler).Marshal", 1))   // label: the-marshaler's-verdict-is-returned
 //@   assert@call((*connectUnaryMarshaler).Marshal#1): arg1 == msg
 //@ func (*connectUnaryHandlerConn).Send(hc, msg) err
